@@ -629,9 +629,7 @@ func c11RuleG(w *World, r *Report) {
 // ---------- Rule A ----------
 
 // frozen, verified-by-reading exceptions: function | operand description | asserted type  -> reason
-var assertExceptions = map[string]string{
-	"(*parser.PacketDslVisitorImpl).VisitPacketDefinition|.Attr|*model.LengthFieldAttribute": "lengthField is assigned only under the ok edge of the same assertion on fld.Attr (and is re-assigned only LengthFieldAttribute values); guarded by lengthField != nil",
-}
+var assertExceptions = map[string]string{}
 
 func c11RuleA(w *World, r *Report, subjects []*ssa.Function, ctxs map[string]*CtxInfo) {
 	const rule = "C11/A-type-assertion"
@@ -874,6 +872,18 @@ func (w *World) assertJustified(fn *ssa.Function, ta *ssa.TypeAssert, ctxs map[s
 			}
 		}
 	}
+	// (ix) Y.Attr.(*T) where Y holds only fields that passed the checked assertion Attr.(*T) when they were recorded
+	// (a variable, struct field or model link that designates "the field of kind T"), under a non-nil test of Y
+	if ld, ok := ta.X.(*ssa.UnOp); ok && ld.Op == token.MUL && !toIface {
+		if fa, ok := ld.X.(*ssa.FieldAddr); ok {
+			if tn, f, _, _ := fieldOf(fa); tn == "Field" && f == "Attr" {
+				y := fa.X
+				if guardedByNil(ta.Block(), y, true) && w.designatedKind(y, ta.AssertedType, 0, map[ssa.Value]bool{}) {
+					return "the field value was recorded only under the ok edge of a checked assertion of its Attr to " + at + ", and is non-nil here"
+				}
+			}
+		}
+	}
 	// interface-to-interface where the static type already implements the target
 	if toIface && staticImplements(ta.X.Type(), ta.AssertedType) {
 		if _, isParam := ta.X.(*ssa.Parameter); !isParam {
@@ -895,6 +905,150 @@ func (w *World) assertJustified(fn *ssa.Function, ta *ssa.TypeAssert, ctxs map[s
 		}
 	}
 	return ""
+}
+
+// designatedKind: every non-nil value y can hold was recorded where a checked assertion of its Attr to T had succeeded.
+func (w *World) designatedKind(y ssa.Value, t types.Type, depth int, seen map[ssa.Value]bool) bool {
+	y = stripIdentity(y)
+	if depth > 6 {
+		return false
+	}
+	if seen[y] {
+		return true
+	}
+	seen[y] = true
+	if c, ok := y.(*ssa.Const); ok {
+		return c.IsNil()
+	}
+	// recorded at a place dominated by the ok edge of v.Attr.(T)
+	okAt := func(v ssa.Value, at *ssa.BasicBlock) bool {
+		v = stripIdentity(v)
+		fn := at.Parent()
+		for _, b := range fn.Blocks {
+			for _, ins := range b.Instrs {
+				o, ok := ins.(*ssa.TypeAssert)
+				if !ok || !o.CommaOk || !types.Identical(o.AssertedType, t) {
+					continue
+				}
+				ld, ok := o.X.(*ssa.UnOp)
+				if !ok {
+					continue
+				}
+				fa, ok := ld.X.(*ssa.FieldAddr)
+				if !ok || !sameValue(stripIdentity(fa.X), v) {
+					continue
+				}
+				if _, f, _, _ := fieldOf(fa); f != "Attr" {
+					continue
+				}
+				for _, r2 := range *o.Referrers() {
+					ex, ok := r2.(*ssa.Extract)
+					if !ok || ex.Index != 1 {
+						continue
+					}
+					for _, r3 := range *ex.Referrers() {
+						if iff, ok := r3.(*ssa.If); ok && edgeDominates(iff.Block(), 0, at) {
+							return true
+						}
+					}
+				}
+			}
+		}
+		return false
+	}
+	switch x := y.(type) {
+	case *ssa.Phi:
+		for i, e := range x.Edges {
+			if c, ok := e.(*ssa.Const); ok && c.IsNil() {
+				continue
+			}
+			if okAt(e, x.Block().Preds[i]) {
+				continue
+			}
+			if !w.designatedKind(e, t, depth+1, seen) {
+				return false
+			}
+		}
+		return true
+	case *ssa.UnOp:
+		if x.Op != token.MUL {
+			return false
+		}
+		var stores []*ssa.Store
+		switch a := x.X.(type) {
+		case *ssa.FieldAddr:
+			key := structFieldKey(x)
+			if key == "" {
+				return false
+			}
+			for _, fn := range w.srcFuncs {
+				forEachInstr(fn, func(_ *ssa.BasicBlock, ins ssa.Instruction) {
+					if st, ok := ins.(*ssa.Store); ok {
+						if fa2, ok := st.Addr.(*ssa.FieldAddr); ok && fa2.Field == a.Field && types.Identical(fa2.X.Type(), a.X.Type()) {
+							stores = append(stores, st)
+						}
+					}
+				})
+			}
+		case *ssa.Alloc:
+			for _, ref := range *a.Referrers() {
+				switch r := ref.(type) {
+				case *ssa.Store:
+					if r.Addr == ssa.Value(a) {
+						stores = append(stores, r)
+					}
+				case *ssa.UnOp, *ssa.DebugRef:
+				default:
+					return false // the variable escapes
+				}
+			}
+		default:
+			return false
+		}
+		for _, st := range stores {
+			if c, ok := stripIdentity(st.Val).(*ssa.Const); ok && c.IsNil() {
+				continue
+			}
+			if okAt(st.Val, st.Block()) {
+				continue
+			}
+			if !w.designatedKind(st.Val, t, depth+1, seen) {
+				return false
+			}
+		}
+		return true
+	case *ssa.Parameter:
+		fn := x.Parent()
+		idx := -1
+		for i, q := range fn.Params {
+			if q == x {
+				idx = i
+			}
+		}
+		n := w.CallGraph().Nodes[fn]
+		if idx < 0 || n == nil {
+			return false
+		}
+		real := 0
+		for _, e := range n.In {
+			if e.Caller.Func.Synthetic != "" {
+				continue
+			}
+			real++
+			if e.Site == nil || e.Site.Common().IsInvoke() || idx >= len(e.Site.Common().Args) {
+				return false
+			}
+			a := e.Site.Common().Args[idx]
+			if okAt(a, e.Site.Block()) {
+				continue
+			}
+			if !w.designatedKind(a, t, depth+1, seen) {
+				return false
+			}
+		}
+		return real > 0
+	}
+	return false
 }
 
 // deadByExhaustiveSwitch: blk is reachable only when checked assertions of one value to every labelled alternative of a grammar rule
@@ -1643,6 +1797,24 @@ func normMapDesc(m ssa.Value) string {
 					}
 				}
 			}
+		}
+	}
+	// a name map kept in a scratch record whose content becomes Packet.FieldMap
+	if key := structFieldKey(m); key != "" && theWorld != nil && !strings.Contains(key, "/internal/model.") {
+		becomes := false
+		for _, fn := range theWorld.srcFuncs {
+			forEachInstr(fn, func(_ *ssa.BasicBlock, ins ssa.Instruction) {
+				if st, ok := ins.(*ssa.Store); ok && structFieldKey(st.Val) == key {
+					if fa, ok := st.Addr.(*ssa.FieldAddr); ok {
+						if _, f, _, _ := fieldOf(fa); f == "FieldMap" {
+							becomes = true
+						}
+					}
+				}
+			})
+		}
+		if becomes {
+			return ".FieldMap"
 		}
 	}
 	return mapDesc(m)
